@@ -355,8 +355,8 @@ def dump(b):
     # where the resources live and what their resource set knows (a save must leave that as it found it)
     from pyecore.resources import global_registry
     out['environment'] = {
-        'resource uris': [getattr(getattr(r, 'uri', None), 'plain', None) for r in b.resources],
-        'rset.resources': [(k, ridx.get(id(v), 'other')) for k, v in b.rset.resources.items()],
+        'resource uris': [os.path.basename(getattr(getattr(r, 'uri', None), 'plain', None) or '') for r in b.resources],
+        'rset.resources': [(os.path.basename(k), ridx.get(id(v), 'other')) for k, v in b.rset.resources.items()],
         'rset.metamodel_registry': sorted(map(str, b.rset.metamodel_registry.maps[0])),
         'global_registry': sorted(map(str, global_registry)),
     }
@@ -756,8 +756,8 @@ def check_histories(out, spec, fmt, opts, rng, stats, scratch):
 
 def _env(rset, resources):
     from pyecore.resources import global_registry
-    return {'resource uris': [r.uri.plain for r in resources],
-            'rset.resources': [(k, next((i for i, r in enumerate(resources) if r is v), 'other'))
+    return {'resource uris': [os.path.basename(r.uri.plain) for r in resources],
+            'rset.resources': [(os.path.basename(k), next((i for i, r in enumerate(resources) if r is v), 'other'))
                                for k, v in rset.resources.items()],
             'rset.metamodel_registry': sorted(map(str, rset.metamodel_registry.maps[0])),
             'global_registry': sorted(map(str, global_registry))}
@@ -886,14 +886,12 @@ def export_scenarios(ctx, out):
             if read(export_path) != export_v1:
                 out.fail(sig('failsafe', fmt, 'export:' + kind), 'a plain save() after a failed save(output=...) wrote '
                          'to the export target', case)
-            if own_v2 is None or (own_v2 == own_v1 and os.path.getsize(b.path) == 0):
+            if not own_v2:
                 out.fail(sig('failsafe', fmt, 'export:' + kind), 'a plain save() after a failed export did not write '
                          'the resource\'s own file', case)
-            marker_old = os.stat(b.path).st_mtime_ns
             if not do_save(b, fmt, opts) and read(b.path) != own_v2:
                 out.fail(sig('idempotence', fmt, 'export:' + kind), 'two plain saves after a failed export differ: '
                          + _firstdiff(own_v2, read(b.path)), case)
-            del marker_old
     out.coverage['failed_export_scenarios'] = n
 
 
@@ -978,10 +976,8 @@ def run(ctx, out):
         if cut:
             break
     model.close()
-    pre = dict(out.coverage)
     metaref_scenarios(ctx, out)
     export_scenarios(ctx, out)
-    pre.update(out.coverage)
     out.coverage.update({
         'evaluations': stats['saves'],
         'distinct_nontrivial': len(stats['distinct']),
